@@ -66,12 +66,12 @@ Inductive opk :=
 Definition inp := (zentries * zentries * (Z * Z))%type.
 
 Inductive sev := SvSelect (k : Z) | SvObserve (k : Z) | SvUnobserve (k : Z) | SvSet (m : zentries) | SvPass.
-Inductive jev := JvSetOuter (m : zentries) | JvSetInner (x v : Z) | JvUnobserve | JvObserve | JvPass.
+Inductive jev := JvSetOuter (m : zentries) | JvSetInner (x v : Z) | JvSetBase (i v : Z) | JvUnobserve | JvObserve | JvPass (early : list Z).
 
 Inductive case :=
 | CSimple (op : opk) (steps : list (inp * obs))
 | CSelector (e : Z) (evs : list (sev * option obs))
-| CJoin (fixed : bool) (vals0 : zentries) (evs : list (jev * option obs)).
+| CJoin (fixed : bool) (vals0 bvals0 : zentries) (cdefs : list (Z * Join.cdef)) (evs : list (jev * option obs)).
 
 Definition obs_eqb (a b : obs) : bool := bool_decide (a = b).
 
@@ -175,17 +175,18 @@ Definition join_step (fixed : bool) (j : Join.t) (e : jev) : Join.t :=
     match e with
     | JvSetOuter m => Join.SetOuter (mk m)
     | JvSetInner x v => Join.SetInner x v
+    | JvSetBase i v => Join.SetBase i v
     | JvUnobserve => Join.Unobserve
     | JvObserve => Join.Observe
-    | JvPass => Join.Pass
+    | JvPass early => Join.Pass early
     end.
 
 Definition run_case (c : case) : option nat :=
   match c with
   | CSimple op steps => run_simple op steps
   | CSelector e evs => replay_ev (sel_step (eq_of e)) sel_view Selector.init evs 0
-  | CJoin fixed vals0 evs =>
-    replay_ev (join_step fixed) (fun j => [entries (Join.value j)]) (Join.init (mk vals0)) evs 0
+  | CJoin fixed vals0 bvals0 cdefs evs =>
+    replay_ev (join_step fixed) (fun j => [entries (Join.value j)]) (Join.init (mk vals0) (mk bvals0) cdefs) evs 0
   end.
 
 Definition mismatches (cs : list case) : list (nat * nat) :=
